@@ -112,7 +112,7 @@ Proof. vm_compute. repeat split; reflexivity. Qed.
 
 (* ---------- the shared-state skeleton is the pinned one ---------- *)
 
-Lemma skeleton_check : sync_inventory_b = true /\ shared_b = true /\ shapes_b = true.
+Lemma skeleton_check : sync_inventory_b = true /\ shared_b = true /\ shapes_b = true /\ flag_sites_b = true.
 Proof. vm_compute. repeat split; reflexivity. Qed.
 
 Lemma written_by_writers_eq : fields_from f_writes graph write_entries = Some written_by_writers.
@@ -146,6 +146,51 @@ Proof.
   apply memN_In in Hr. rewrite Hr in H. cbn [negb orb] in H.
   unfold mem_str in H. apply existsb_exists in H. destruct H as [x [Hx He]].
   apply String.eqb_eq in He. rewrite He. exact Hx.
+Qed.
+
+(* ---------- lock discipline: who touches Router.mu ---------- *)
+
+Lemma lock_discipline_check : lock_discipline_b = true.
+Proof. vm_compute. reflexivity. Qed.
+
+Lemma disc_from_nth : forall g i n f,
+  disc_from i g = true -> nth_error g n = Some f -> site_ok (i + N.of_nat n) f = true.
+Proof.
+  induction g as [|x g IH]; intros i n f H E.
+  - destruct n; discriminate E.
+  - cbn [disc_from] in H. apply andb_true_iff in H. destruct H as [H1 H2]. destruct n as [|n].
+    + cbn in E. injection E as E. subst x. rewrite N.add_0_r. exact H1.
+    + cbn [nth_error] in E. specialize (IH (N.succ i) n f H2 E).
+      replace (i + N.of_nat (S n))%N with (N.succ i + N.of_nat n)%N by lia. exact IH.
+Qed.
+
+Lemma has_lit_guard : forall ks gd, guard_ok ks gd = true -> has_lit gd 0 true = true -> nth 0 ks None <> Some false.
+Proof.
+  intros ks gd Hg Hl. unfold has_lit in Hl. apply existsb_exists in Hl. destruct Hl as [[i b] [Hin Hib]].
+  cbn [fst snd] in Hib. apply andb_true_iff in Hib. destruct Hib as [Hi Hb].
+  apply Nat.eqb_eq in Hi. apply Bool.eqb_prop in Hb. subst i b.
+  unfold guard_ok in Hg. rewrite forallb_forall in Hg. specialize (Hg _ Hin). unfold lit_ok in Hg. cbn [fst snd] in Hg.
+  intro E. rewrite E in Hg. discriminate Hg.
+Qed.
+
+(* Router.mu is acquired only by txnWith when its `write` argument is not false, and released only by
+   Txn.Commit / Txn.Abort of a transaction whose `write` field is not false *)
+Theorem writer_lock_discipline : forall s l, In l (leaves_at graph s) ->
+  (l = Acquire lock_Router_mu -> fst s = f_Router_txnWith /\ nth 0 (snd s) None <> Some false) /\
+  (l = Release lock_Router_mu -> (fst s = f_Txn_Commit \/ fst s = f_Txn_Abort) /\ nth 0 (snd s) None <> Some false).
+Proof.
+  intros [fid ks] l Hl. unfold leaves_at in Hl. cbn [fst snd] in *.
+  destruct (lookup graph fid) as [f|] eqn:El; [|destruct Hl].
+  apply in_map_iff in Hl. destruct Hl as [site [Hs Hin]]. apply filter_In in Hin. destruct Hin as [Hin Hg].
+  pose proof lock_discipline_check as H. unfold lock_discipline_b in H. apply andb_true_iff in H. destruct H as [H _].
+  unfold lookup in El. pose proof (disc_from_nth graph 0%N (N.to_nat fid) f H El) as Hok.
+  rewrite N.add_0_l, N2Nat.id in Hok. unfold site_ok in Hok. rewrite forallb_forall in Hok. specialize (Hok site Hin).
+  rewrite Hs in Hok. split; intro E; rewrite E in Hok; cbv beta iota in Hok.
+  - rewrite N.eqb_refl in Hok. cbn [negb orb] in Hok. apply andb_true_iff in Hok. destruct Hok as [Hf Hlit].
+    apply N.eqb_eq in Hf. split; [exact Hf | exact (has_lit_guard ks _ Hg Hlit)].
+  - rewrite N.eqb_refl in Hok. cbn [negb orb] in Hok. apply andb_true_iff in Hok. destruct Hok as [Hf Hlit].
+    apply orb_true_iff in Hf. split; [|exact (has_lit_guard ks _ Hg Hlit)].
+    destruct Hf as [Hf|Hf]; apply N.eqb_eq in Hf; [left|right]; exact Hf.
 Qed.
 
 (* ---------- non-vacuity of reach_sound_complete: a small graph with a guarded lock ---------- *)
